@@ -20,6 +20,15 @@ def replies(rng):
     for pt in (12, 15, 2, 3, 2, 12):
         p = rpcfmt.rand_pdu(rng, pt)
         out.append(rpcfmt.finalize(p))
+    # replies whose length needs both octets of frag_len (a GetKey-sized response, a large fault): 300 … 1300 octets, incl. k·256 and k·256 ± 1
+    import dataclasses
+    for n in (256 - 24, 257 - 24, 300, 512 - 24, 767 - 24, 1300):
+        p = rpcfmt.rand_pdu(rng, 2)
+        try:
+            p = dataclasses.replace(p, stub_data=bytes(rng.randrange(256) for _ in range(n)), sec_trailer=None)
+            out.append(rpcfmt.finalize(p))
+        except Exception:  # noqa
+            pass
     return out
 
 
@@ -116,7 +125,7 @@ def run(ctx):
         exp = expect_of(raw)
         whole, calls0, _, dec0 = run_sync([raw], exp)
         parts = [[raw]]
-        parts += [[raw[:i], raw[i:]] for i in range(1, n)]
+        parts += [[raw[:i], raw[i:]] for i in (range(1, n) if n <= 200 else list(range(1, 40)) + list(range(40, n, 37)))]
         if ctx.thorough:
             parts += [[raw[:i], raw[i:j], raw[j:]] for i in range(1, n) for j in range(i + 1, n)] if n <= 120 else \
                      [[raw[:i], raw[i:j], raw[j:]] for i in range(1, min(n, 40)) for j in range(i + 1, n, 3)]
@@ -143,7 +152,7 @@ def run(ctx):
                 if aout != whole:
                     ctx.violation("async client: a segmented reply is not reassembled to the same PDU", {"chunks": [hx(c) for c in chunks]}, aout[:100], whole[:100])
         # EOF at every offset (including 0), delivered in one or two chunks
-        for k in range(0, n):
+        for k in (range(0, n) if n <= 200 else sorted({k_ for k_ in list(range(0, 40)) + list(range(40, n, 53)) + [n - 1, (n & 0xFF) if (n & 0xFF) >= 16 else 16] if k_ < n})):
             for chunks in ([raw[:k]] if k else [[]])[0:1] if False else ([[raw[:k]]] if k else [[]]) + ([[raw[:k // 2], raw[k // 2:k]]] if k >= 2 else []):
                 chunks = [c for c in chunks if c]
                 out, calls, left, _ = run_sync(chunks, exp)
